@@ -22,3 +22,11 @@ package httppeeridauth
 //@ ensures old(a.HmacKey) != nil ==> a.HmacKey == old(a.HmacKey)
 //@ callsite newHmacPool#0 requires arg0 == a.HmacKey
 //@ noframe
+
+// the MAC that authenticates opaque state and bearer tokens is keyed with the configured secret itself (all of it):
+// state minted under a different secret does not verify
+//@ func newHmacPool
+//@ prop C19
+//@ closure 0
+//@ callsite New#0 requires arg1 == key
+//@ noframe
